@@ -194,6 +194,7 @@ class Ctx:
         self.inlined = []
         self.file = file
         self.havocs = []     # names of values replaced by unconstrained ones (tolerant mode)
+        self.mutable = set() # locals that Rust allows a statement to mutate: `let mut x`, `mut x: T` and `x: &mut T` (no interior mutability in this crate)
 
     def fresh(self, base, sort, mty=None):
         self.n += 1
@@ -224,6 +225,7 @@ class Interp:
         self.ctx = ctx
         self.consts = consts or {}
         self.tolerant = False
+        self.last_self = None
 
     # ---- obligations
     def oblige(self, env, kind, node, cond):
@@ -328,6 +330,7 @@ class Interp:
             if name in env.vars: return env.vars[name]
             if name in self.consts: return self.consts[name]
             if name == "None": return Opt(FALSE, None)
+            if name == "PhantomData": return UNIT
             raise Unsupported("unbound name %s at %s" % (name, site(n)))
         if segs[0] in ("DVec3", "DVec4") and segs[1] in self.VEC_CONSTS:
             c = self.VEC_CONSTS[segs[1]]
@@ -702,14 +705,31 @@ class Interp:
             if k == "let":
                 names = [q["name"] for q in extract.find_nodes(s["pat"], lambda x: x.get("k") == "pident")]
                 roots = self.mutated_roots(s["init"]) if s.get("init") is not None else set()
+                self.note_mutable(s["pat"])
                 for nm in names: env.vars[nm] = Havoc(self.ctx, nm)
             else:
                 roots = self.mutated_roots(s)
             if "*" in roots: roots = set(env.vars)
             for r_ in roots:
-                if r_ in env.vars and not isinstance(env.vars[r_], (Closure, SymArr)): env.vars[r_] = fresh_like(self.ctx, env.vars[r_], r_)
+                # only a local declared `mut` (or a `&mut` parameter) can be written by a statement - Rust's borrow rules
+                if r_ in env.vars and r_ in self.ctx.mutable and not isinstance(env.vars[r_], (Closure, SymArr)):
+                    env.vars[r_] = fresh_like(self.ctx, env.vars[r_], r_)
             self.ctx.havocs.append("stmt@%d-%d: %s" % (s["sp"][0], s["sp"][1], str(ex)[:80]))
             return UNIT
+
+    def note_mutable(self, pat):
+        from . import extract
+        for q in extract.find_nodes(pat, lambda x: x.get("k") == "pident" and x.get("mut")): self.ctx.mutable.add(q["name"])
+
+    def note_params(self, fn):
+        for p in fn["sig"]["params"]:
+            if p["k"] == "self":
+                if p.get("mut"): self.ctx.mutable.add("self")
+            else:
+                self.note_mutable(p["pat"])
+                if p.get("ty", "").replace(" ", "").startswith("&mut"):
+                    from . import extract
+                    for q in extract.find_nodes(p["pat"], lambda x: x.get("k") == "pident"): self.ctx.mutable.add(q["name"])
 
     def exec_stmt_strict(self, env, s, last=False):
         k = s["k"]
@@ -721,8 +741,10 @@ class Interp:
                 p = s["pat"]
                 while p["k"] == "ptype": p = p["pat"]
                 if p["k"] != "pident": raise Unsupported("uninit pattern")
+                self.ctx.mutable.add(p["name"])
                 env.vars[p["name"]] = None
                 return UNIT
+            self.note_mutable(s["pat"])
             v = self.ev(env, s["init"])
             self.bind_pat(env, s["pat"], v)
             return UNIT
@@ -936,6 +958,7 @@ class Interp:
         v = self.finish_returns(sub, v)
         live = Or(sub.pc, *[c for c, _ in sub.returns])
         env.pc = live
+        self.last_self = sub.vars.get("self") if not sub.returns else None   # final receiver state (only when no early return forked it)
         return v
 
     def ev_mcall(self, env, n):
@@ -990,9 +1013,22 @@ class Interp:
         if isinstance(recv, Arr):
             if m == "len":
                 return recv.length if recv.length is not None else Const(len(recv.e), "Int", "usize")
-            if m in ("clone", "to_vec", "iter", "as_ref"): return recv
+            if m in ("clone", "to_vec", "iter", "as_ref", "into_iter", "copied", "cloned"): return recv
             if m == "contains":
                 return Or(*[Eq(x, args[0]) for x in recv.e])
+            if m == "map" and len(args) == 1 and isinstance(args[0], Closure):
+                return Arr([self.call_closure(env, args[0], [x]) for x in recv.e])
+            if m in ("max_by", "min_by") and len(args) == 1 and isinstance(args[0], Closure):
+                # core::iter::Iterator::{max_by, min_by}: a fold that keeps the later element on ties for max (`Greater => x, _ => y`),
+                # the earlier one for min (`Greater => y, _ => x`); None for an empty iterator
+                if not recv.e: return Opt(FALSE, None)
+                acc = recv.e[0]
+                for y in recv.e[1:]:
+                    o = self.call_closure(env, args[0], [acc, y])
+                    if not (isinstance(o, tuple) and o[0] == "sign"): raise Unsupported("comparator of %s does not return an Ordering" % m)
+                    gt = self.sign_cond(o[1], "Greater")
+                    acc = merge(gt, acc, y) if m == "max_by" else merge(gt, y, acc)
+                return Opt(TRUE, acc)
         if isinstance(recv, Enum):
             if m in ("clone", "into"): return recv
         if isinstance(recv, Struct):
@@ -1003,7 +1039,15 @@ class Interp:
             fn = self.ctx.resolver(name)
             if fn is not None:
                 self.ctx.inlined.append(name)
-                return self.inline(env, fn, [recv] + args)
+                sp_ = [q for q in fn["sig"]["params"] if q["k"] == "self"]
+                r_ = self.inline(env, fn, [recv] + args)
+                if sp_ and sp_[0].get("ref") and sp_[0].get("mut"):
+                    # `&mut self` method: the receiver's final state is written back to the place it was called on
+                    if self.last_self is None: raise Unsupported("&mut self method with early return at %s" % site(n))
+                    root, path = self.lvalue_path(env, n["recv"])
+                    if root not in env.vars: raise Unsupported("&mut self call on unknown place")
+                    env.vars[root] = self.update(env.vars[root], path, self.last_self)
+                return r_
         if isinstance(recv, Enum):
             name = recv.name + "::" + m
             fn = self.ctx.resolver(name)
@@ -1063,6 +1107,8 @@ class Interp:
                 for _ in range(a[0].args[0]): r = r * x
                 return r
             if m in ("clone", "to_f64", "value"): return x
+            if m == "partial_cmp" and len(a) == 1 and isinstance(a[0], T) and a[0].sort == "Real":
+                return Opt(TRUE, ("sign", x - a[0]))       # A-REAL: no NaN, so the comparison is total
         if x.sort == "Int":
             if m == "signum":
                 r = Ite(Gt(x, Const(0, "Int")), Const(1, "Int"), Ite(Lt(x, Const(0, "Int")), Const(-1, "Int"), Const(0, "Int")))
@@ -1097,6 +1143,7 @@ def run_function(fn, inputs, ctx=None, interp_cls=Interp, consts=None, self_ty=N
             while pat["k"] == "ptype": pat = pat["pat"]
             if pat["k"] != "pident": raise Unsupported("param pattern")
             env.vars[pat["name"]] = inputs[pat["name"]]
+    it.note_params(fn)
     body = fn["body"]
     if n_stmts is not None:
         body = dict(body); body["stmts"] = body["stmts"][:n_stmts]
